@@ -591,7 +591,11 @@ pub fn run(out: &mut Out, tier: &str, seed: u64, prop: &str) {
                 // path and fragment are compared SEPARATELY (a `#` that moved from the fragment into the path as `%23` must show)
                 let parts = |h: &str| url::Url::parse(&unhex(h)).map(|u| (urlencoding::decode(u.path()).map(|c| c.into_owned()).unwrap_or_default(), u.fragment().map(|f| urlencoding::decode(f).map(|c| c.into_owned()).unwrap_or_default()))).ok();
                 let _ = &dec;
-                field(&ans, 0) == field(&want_prefix, 0) && parts(&field(&ans, 1)).is_some() && parts(&field(&ans, 1)) == parts(&field(&want_prefix, 1)) && strip(&ans).starts_with(&strip(&want_prefix))
+                // (escapes that do not decode to UTF-8: the feature keeps such a text literally — `%80` becomes the three characters
+                //  `%80` of the file name — which is its documented fallback; the URL is not judged there, the rest is)
+                let undecodable = d.url.as_ref().is_some_and(|u| urlencoding::decode(u).is_err());
+                if undecodable { out.stat("c07.ext_file_url_undecodable_not_judged"); }
+                field(&ans, 0) == field(&want_prefix, 0) && (undecodable || (parts(&field(&ans, 1)).is_some() && parts(&field(&ans, 1)) == parts(&field(&want_prefix, 1)))) && strip(&ans).starts_with(&strip(&want_prefix))
             };
             if !ans.starts_with(&want_prefix) && !ext_file_same {
                 out.oracle_fail("C07", "the parsed requirement does not have the derivation's components (name, extras, specifiers/URL, marker)", serde_json::json!({"text": text, "got": ans, "want": want_prefix}));
